@@ -58,6 +58,18 @@ func init() {
 			sp := tok.LeafSpan()
 			fmt.Printf("  tok synth=%v leaf=%v kind=%v [%d,%d) %q\n", tok.IsSynthetic(), tok.IsLeaf(), tok.Kind(), sp.Start, sp.End, tok.Text())
 		}
+		if os.Getenv("XDBG_FORMAT") != "" {
+			cur := src
+			for pass := 1; pass <= 3; pass++ {
+				rep := &report.Report{}
+				f, _ := xparser.Parse("t.proto", source.NewFile("t.proto", cur), rep)
+				o, err := printer.PrintFile(printer.Options{Format: true, Formatting: printer.Default()}, f)
+				fmt.Printf("  format pass %d: %q %v\n", pass, o, err)
+				cur = o
+			}
+			h.Eval(1)
+			return
+		}
 		out, err := printer.PrintFile(printer.Options{}, file)
 		fmt.Printf("  PrintFile %q %v\n", out, err)
 		for d := range seq.Values(file.Decls()) {
